@@ -230,3 +230,29 @@ for nm in ("c20_no_update_equal", "c20_update"):
       models=["std::fs::read_to_string / std::fs::write / std::env::var -> one-file symbolic file system + 3-valued variable",
               "str::replace -> naive model", FMT, "drop_glue::<io::Error> recursion bounded at 0 (assertion on)"],
       oracle="no-update: assert returns for got == normalise(content), zero writes, file unchanged; update: one write, file == got")
+
+# --------------------------------------------------------------------------- C17
+prop("C17", title="Rewrite rules and layered configuration resolve as documented",
+     level_text="Bounded model checking of the real Extractor::extract / ExtractRule / MatchOrExpr / MatchAndExpr with the regex engine "
+                "replaced by a NONDETERMINISTIC matcher (hit / captured payee / captured code are solver variables, optionally depending on "
+                "the payee as rewritten so far): for every outcome of 2 rules (3 in thorough) x OR[AND[m,m], AND[m]] the resulting payee, "
+                "code, account and pending state equal a reference fold written from the statement. ConfigFragment::merge over three "
+                "documents with symbolic presence of every scalar and rule list: later overrides, unset inherits, rule lists concatenated in "
+                "order. ConfigSet::select's substring match and sort by path length (str::contains, slice sort, real HashMaps in FormatSpec), "
+                "regex case-insensitivity and YAML decoding are outside.",
+     level_note="Trusted: Kani/CBMC; NdMatcher stands for regex_matcher + the record (any regex/record pair induces one of its outcomes); "
+                "identity of pooled strings compared by pointer.")
+H("C17", file="cli/extract.rs", name="c17_rule_fold_2", timeout=1200, expect_s=130,
+  functions=["Extractor::extract", "ExtractRule::extract", "MatchOrExpr::extract", "MatchAndExpr::extract", "Fragment += / + Matched"],
+  bound="2 rules x OR[AND[m,m], AND[m]]; per matcher: hit, payee capture in {none,p0,p1}, code capture in {none,c0,c1}; per rule: pending, "
+        "account in {none,A0,A1}; unwind 5",
+  oracle="payee/code/account/cleared == reference fold from the statement")
+H("C17", file="cli/extract.rs", name="c17_rule_fold_payee_dependent_2", timeout=1200, expect_s=130,
+  functions=["Extractor::extract", "MatchAndExpr::extract (each matcher sees the payee rewritten so far)"],
+  bound="as c17_rule_fold_2, each matcher additionally hits only if the current payee is a chosen pool entry", oracle="same")
+H("C17", file="cli/config.rs", name="c17_merge_3", timeout=1800, expect_s=380,
+  functions=["ConfigFragment::merge"],
+  bound="3 documents; per document symbolic presence of account, operator, account_type (+value), 0..1 rewrite rule; unwind 5",
+  oracle="scalar = last document that sets it; rewrite = concatenation in document order")
+H("C17", file="cli/extract.rs", name="c17_rule_fold_3", tier="thorough", timeout=3000, expect_s=900,
+  functions=["Extractor::extract"], bound="3 rules, otherwise as c17_rule_fold_2", oracle="same")
